@@ -408,7 +408,7 @@ def run(ck, facts):
                         ck.bad("R6", "%s/use-lifetimes-consumed-whole" % C.norm_path(f["path"]).split("::")[-1],
                                "the use-site lifetimes of a struct slot are cut down by `.%s()`: only some of the edge arrays the slot borrows from receive what is allocated for it, "
                                "the others can be collected while the returned value still points into that memory" % ".".join(reversed(chain)), C.loc(f, x.get("ln")))
-            ck.ok("R6", "%s/use-lifetimes-loop#%d" % (C.norm_path(f["path"]).split("::")[-1], lp.get("ln") or 0), "iterated", C.loc(f, lp.get("ln")))
+            ck.ok("R6", "%s/use-lifetimes-loop" % C.norm_path(f["path"]).split("::")[-1], "iterated", C.loc(f, lp.get("ln")))
             for x in C.walk(lp["body"]):
                 if x.get("k") != "mcall" or x.get("m") != "fmt_lifetime" or not x.get("a"):
                     continue
